@@ -28,7 +28,7 @@ type c27Call struct {
 	Proc  uint32 `json:"proc"`
 	Prog  int    `json:"prog"`
 	PVers int    `json:"pvers"`
-	Prot  int    `json:"prot"` // 0 tcp, 1 udp
+	Prot  int    `json:"prot"` // 0 tcp, 1 udp, 2 protocol 132 (portmap v2 only; a netid cannot name it)
 	Port  uint32 `json:"port"`
 	V6    bool   `json:"v6"`   // rpcbind: use tcp6/udp6 netid and an IPv6 universal address
 	Bad   int    `json:"bad"`  // 0 well-formed, 1 malformed uaddr, 2 truncated args
@@ -57,7 +57,7 @@ func genC27(t *rapid.T) c27Case {
 	n := rapid.IntRange(2, 25).Draw(t, "n")
 	for i := 0; i < n; i++ {
 		cl := c27Call{Addr: rapid.IntRange(0, len(c27Addrs)-1).Draw(t, "addr"), Vers: pick(t, "vers", uint32(2), 2, 3, 4, 3, 1, 5), Proc: pick(t, "proc", uint32(1), 1, 1, 2, 2, 3, 3, 4, 4, 0, 5, 9),
-			Prog: rapid.IntRange(0, 2).Draw(t, "prog"), PVers: rapid.IntRange(0, 1).Draw(t, "pvers"), Prot: rapid.IntRange(0, 1).Draw(t, "prot"),
+			Prog: rapid.IntRange(0, 2).Draw(t, "prog"), PVers: rapid.IntRange(0, 1).Draw(t, "pvers"), Prot: pick(t, "prot", 0, 0, 0, 1, 1, 1, 2),
 			Port: pick(t, "port", uint32(2049), 635, 1, 65535, 256, 255, 40000), V6: rapid.IntRange(0, 3).Draw(t, "v6") == 0, Cut: rapid.IntRange(0, 5).Draw(t, "cut")}
 		if rapid.IntRange(0, 2).Draw(t, "loop") == 0 {
 			cl.Addr = rapid.IntRange(0, 3).Draw(t, "laddr")
@@ -122,6 +122,9 @@ func runC27(tb stat.TB, c c27Case) {
 		netid := "tcp"
 		if cl.Prot == 1 {
 			prot, netid = 17, "udp"
+		}
+		if cl.Prot == 2 && cl.Vers == 2 {
+			prot = 132
 		}
 		if cl.V6 {
 			netid += "6"
@@ -285,8 +288,32 @@ func runC27(tb stat.TB, c c27Case) {
 				}
 				got[pmKey{b.Prog, b.Vers, pr}] = p
 			}
-			if fmt.Sprint(got) != fmt.Sprint(model) {
-				if stat.Violate(tb, id, check, fmt.Sprintf("dump-disagrees-with-registry:v%d", cl.Vers), c, "%s lists %v, the registrations so far say %v", what, got, model) {
+			want := model
+			if cl.Vers != 2 {
+				// a netid cannot name protocols other than tcp/udp: such registrations (made through portmap v2) and
+				// whatever shares their (program, version) are not judged in an rpcbind DUMP; everything else is
+				other := map[[2]uint32]bool{}
+				for k := range model {
+					if k.prot != 6 && k.prot != 17 {
+						other[[2]uint32{k.prog, k.vers}] = true
+					}
+				}
+				if len(other) > 0 {
+					want = map[pmKey]uint32{}
+					for k, p := range model {
+						if !other[[2]uint32{k.prog, k.vers}] {
+							want[k] = p
+						}
+					}
+					for k := range got {
+						if other[[2]uint32{k.prog, k.vers}] {
+							delete(got, k)
+						}
+					}
+				}
+			}
+			if fmt.Sprint(got) != fmt.Sprint(want) {
+				if stat.Violate(tb, id, check, fmt.Sprintf("dump-disagrees-with-registry:v%d", cl.Vers), c, "%s lists %v, the registrations so far say %v", what, got, want) {
 					return
 				}
 			}
